@@ -163,6 +163,12 @@ var dirSeq int64
 // Cleanup removes all scratch data of this process.
 func Cleanup() { _ = os.RemoveAll(scratchRoot) }
 
+// ScratchRoot is this process's scratch directory on tmpfs (created if needed).
+func ScratchRoot() string {
+	_ = os.MkdirAll(scratchRoot, 0755)
+	return scratchRoot
+}
+
 func newDir() string {
 	d := filepath.Join(scratchRoot, fmt.Sprintf("r%d", atomic.AddInt64(&dirSeq, 1)))
 	if err := os.MkdirAll(d, 0755); err != nil {
